@@ -276,7 +276,7 @@ Section Loop.
     | _, _ => c
     end.
 
-  Fixpoint upd (i : nat) (f : cell -> cell) (st : list cell) : list cell :=
+  Fixpoint upd (i : nat) (f : cell -> cell) (st : list cell) {struct st} : list cell :=
     match st, i with
     | [], _ => []
     | c :: t, O => f c :: t
